@@ -374,7 +374,9 @@ func structField(g reflect.Value, name string) reflect.Value {
 }
 
 // cmpValue walks got (the content of a slot) against v and records problem classes in probs.
-func cmpValue(t *cqlT, v *val, got reflect.Value, isKey bool, probs *probset) {
+// strict: got comes from an untyped (*interface{}) destination, where the library chose every slot
+// type itself: a null must then be a nil there; a slot type that cannot hold nil loses the null.
+func cmpValue(t *cqlT, v *val, got reflect.Value, isKey bool, strict bool, probs *probset) {
 	if !got.IsValid() {
 		if !v.null {
 			probs.add("spurious-null")
@@ -388,6 +390,8 @@ func cmpValue(t *cqlT, v *val, got reflect.Value, isKey bool, probs *probset) {
 			if !isNil {
 				probs.add("null-lost")
 			}
+		} else if strict {
+			probs.add("null-lost")
 		} else if !got.IsZero() {
 			probs.add("null-slot-not-zero")
 		}
@@ -421,7 +425,7 @@ func cmpValue(t *cqlT, v *val, got reflect.Value, isKey bool, probs *probset) {
 			return
 		}
 		for i := range v.kids {
-			cmpValue(t.kids[0], v.kids[i], g.Index(i), false, probs)
+			cmpValue(t.kids[0], v.kids[i], g.Index(i), false, strict, probs)
 		}
 	case "map":
 		switch g.Kind() {
@@ -445,7 +449,7 @@ func cmpValue(t *cqlT, v *val, got reflect.Value, isKey bool, probs *probset) {
 					probs.add("entry-missing")
 					continue
 				}
-				cmpValue(t.kids[1], v.kids[i], ev, false, probs)
+				cmpValue(t.kids[1], v.kids[i], ev, false, strict, probs)
 			}
 		case reflect.Struct:
 			for i := range v.kids {
@@ -454,7 +458,7 @@ func cmpValue(t *cqlT, v *val, got reflect.Value, isKey bool, probs *probset) {
 					probs.add("shape")
 					continue
 				}
-				cmpValue(t.kids[1], v.kids[i], f, false, probs)
+				cmpValue(t.kids[1], v.kids[i], f, false, strict, probs)
 			}
 		default:
 			probs.add("shape")
@@ -467,7 +471,7 @@ func cmpValue(t *cqlT, v *val, got reflect.Value, isKey bool, probs *probset) {
 				return
 			}
 			for i := range v.kids {
-				cmpValue(t.kids[i], v.kids[i], g.Index(i), false, probs)
+				cmpValue(t.kids[i], v.kids[i], g.Index(i), false, strict, probs)
 			}
 		case reflect.Struct:
 			for i := range v.kids {
@@ -481,7 +485,7 @@ func cmpValue(t *cqlT, v *val, got reflect.Value, isKey bool, probs *probset) {
 					probs.add("shape")
 					continue
 				}
-				cmpValue(t.kids[i], v.kids[i], f, false, probs)
+				cmpValue(t.kids[i], v.kids[i], f, false, strict, probs)
 			}
 		case reflect.Map:
 			if t.kind != "udt" {
@@ -497,7 +501,7 @@ func cmpValue(t *cqlT, v *val, got reflect.Value, isKey bool, probs *probset) {
 					}
 					continue
 				}
-				cmpValue(t.kids[i], v.kids[i], ev, false, probs)
+				cmpValue(t.kids[i], v.kids[i], ev, false, strict, probs)
 			}
 		default:
 			probs.add("shape")
